@@ -1,5 +1,7 @@
 """C18 - failures are clean: diagnostic and exit code, no panic, no file changes."""
+import os
 import re
+import subprocess
 
 from vlib import cligen, core, pkgrun, sexp
 
@@ -158,18 +160,108 @@ def random_cases(ctx, start):
     return out
 
 
+# first-line lengths around and beyond bufio's 64 KiB default token limit
+LONG_LENS = [65535, 65536, 65537, 70000, 200000]
+
+
+def neighbour_files(cmd, pname, n):
+    """files whose NAME matches the clean glob *.shoot<cmd>*.go and whose FIRST LINE is extreme: (tag, name, content)"""
+    tag = "shoot" + cmd
+    hdr = '// Code generated by "shoot %s -type=Gone"; DO NOT EDIT. (v0.7.0)' % cmd
+    aio = '// Code generated by "shoot %s -type=*"; DO NOT EDIT. (v0.7.0)' % cmd
+    tail = "\n\npackage %s\n" % pname
+    return [
+        ("hand-written, first line of %d bytes" % n, "tables.%s_blob.go" % tag, "// blob: " + "A" * (n - 9) + tail + "\nconst BlobVersion = 1\n"),
+        ("hand-written, first line of %d bytes, sorts first" % n, "a.%s.a.go" % tag, "// blob: " + "A" * (n - 9) + tail),
+        ("stale per-type header of %d bytes" % n, "zz.%s.gone.go" % tag, hdr[:-1] + " " + "B" * (n - len(hdr) - 1) + ")" + tail),
+        ("all-in-one header of %d bytes" % n, "other.%s.go" % tag, aio[:-1] + " " + "C" * (n - len(aio) - 1) + ")" + tail),
+        ("one line of %d bytes without a newline" % n, "blob.%s.x.go" % tag, "package %s; const BlobX = `%s`" % (pname, "D" * (n - 40))),
+        ("empty first line", "e.%s.x.go" % tag, "\npackage %s\n" % pname),
+        ("no trailing newline", "z.%s.old.go" % tag, "package " + pname),
+        ("stale header with CRLF", "crlf.%s.gone.go" % tag, hdr + "\r\n\r\npackage %s\r\n" % pname),
+        ("stale header without a newline after it", "m.%s.gone.go" % tag, "package %s // %s" % (pname, hdr)),
+    ]
+
+
+def history_cases(ctx, start):
+    """histories of runs in one directory (per-type outputs -> the all-in-one file -> again) next to files that match the clean glob
+    and have an extreme first line; the LAST run of the history is the measured one: it succeeds and replaces/removes files"""
+    rng = ctx.rng
+    out = []
+    for cmd in cligen.CMDS:
+        B = cligen.BASES[cmd]
+        good, fl = B()["good"], B()["flags"]
+        pname = "src" if cmd == "map" else "cs"
+        star = [cmd] + fl + ["-type=*"]
+        histories = [("per-type -> all-in-one", [[cmd] + fl + ["-type=" + ",".join(good)]]),
+                     ("per-type -> all-in-one -> all-in-one", [[cmd] + fl + ["-type=" + ",".join(good)], star]),
+                     ("-sep -> all-in-one", [[cmd] + fl + ["-type=*", "-sep"]]),
+                     ("-file -> all-in-one", [[cmd] + fl + ["-file=b.go"], [cmd] + fl + ["-file=a.go"]]),
+                     ("fresh -> all-in-one", [])]
+        combos = [(h, nb) for h in histories for nb in range(9)]
+        if ctx.quick():
+            # quick: per sub-command three combinations, among them always a first line beyond 64 KiB after per-type runs
+            combos = [(histories[rng.randrange(2)], rng.randrange(4))] + rng.sample(combos, 2)
+        for (hname, hist), nbi in combos:
+            n = rng.choice(LONG_LENS)
+            ntag, nname, content = neighbour_files(cmd, pname, n)[nbi]
+            base = B()
+            base["files"][cligen.src_key(base, nname)] = content
+            cid = "h%d" % (start + len(out))
+            c = cligen.c18_case(cid, base, star, "none", outs=["x"], stale=["earlier-outputs"] if hist else [],
+                                tags=["history " + hname, "neighbour: " + re.sub(r"\d+ bytes", "N bytes", ntag)])
+            c["history"] = [{"args": a, "cwd": base["cwd"]} for a in hist]
+            c["cmd"] = "cd <pkgdir> && " + " && ".join("shoot " + " ".join(a) for a in hist + [star]) + "   # next to %s (%s)" % (nname, ntag)
+            out.append(c)
+    return out
+
+
+def run_histories(ctx, cases):
+    """like pkgrun.Batch.execute, but the directory is compared before/after the LAST run of each history"""
+    b = pkgrun.Batch(ctx, "c18h")
+    for c in cases:
+        b.add(c)
+    shoot = ctx.shoot()
+
+    def one(c):
+        d = b.cdir(c)
+        for r in c["history"]:
+            try:
+                core.run([shoot] + r["args"], cwd=os.path.join(d, r.get("cwd", ".")), timeout=120)
+            except subprocess.TimeoutExpired:
+                pass
+        def inodes():
+            return {os.path.relpath(os.path.join(rt, fn), d): os.lstat(os.path.join(rt, fn)).st_ino for rt, _, fs in os.walk(d) for fn in fs}
+        before, ino0 = pkgrun.snapshot(d), inodes()
+        r = c["runs"][0]
+        try:
+            p = core.run([shoot] + r["args"], cwd=os.path.join(d, r.get("cwd", ".")), timeout=120)
+            runs = [{"rc": p.returncode, "stdout": p.stdout, "stderr": p.stderr, "args": r["args"]}]
+        except subprocess.TimeoutExpired:
+            runs = [{"rc": -9, "stdout": "", "stderr": "timeout", "args": r["args"]}]
+        after, ino1 = pkgrun.snapshot(d), inodes()
+        # (a file replaced by one of the same content counts as written: the directory entry names another inode)
+        return {"runs": runs, "written": {k: v for k, v in after.items() if before.get(k) != v or ino0.get(k) != ino1.get(k)},
+                "deleted": [k for k in before if k not in after]}
+    return dict(zip([c["id"] for c in cases], core.pmap(one, cases)))
+
+
 def run_cases(ctx, cases):
     b = pkgrun.Batch(ctx, "c18")
     for c in cases:
-        b.add(c)
+        if "history" not in c:
+            b.add(c)
     out = b.execute(build=False)
+    hs = [c for c in cases if "history" in c]
+    if hs:
+        out.update(run_histories(ctx, hs))
     impl = {}
     for c in cases:
         im, site = observe(out[c["id"]])
         impl[c["id"]] = im
         c["site"] = site
         c["detail"] = {"stderr": out[c["id"]]["runs"][0]["stderr"][-1200:], "written": sorted(out[c["id"]]["written"]),
-                       "deleted": out[c["id"]]["deleted"]}
+                       "deleted": sorted(out[c["id"]]["deleted"])}
     model = core.model_run(ctx, [c["sexp"] for c in cases])
     return impl, model
 
@@ -188,6 +280,7 @@ def run(ctx, obl):
     res = core.Result()
     cases, npred = cligen.damage_cases(ctx.rng, quick=ctx.quick())
     cases += random_cases(ctx, len(cases))
+    cases += history_cases(ctx, len(cases))
     impl, model = run_cases(ctx, cases)
     for c in cases:
         for t in c["tags"]:
@@ -205,6 +298,8 @@ def run(ctx, obl):
                 v["sources"] = c["files"]
                 v["args"] = c["runs"][0]["args"]
                 v["cwd"] = c["cwd"]
+                if "history" in c:
+                    v["history"] = c["history"]
     res.rule = ("%d structured damaged inputs whose exit code and directory effect the Lean classifier predicts (flag errors, missing "
                 "files/dirs/packages/types, wrong kinds, bad REST result lists, reserved-method misuse, format failures, Clean errors; all four "
                 "sub-commands) + seeded random packages with predicted damage + an enumerated, seed-independent stream of damage shoot does not "
@@ -227,6 +322,8 @@ def replay(ctx, payload):
     sx = sexp.parse(case)
     c = {"id": "replay", "files": payload["sources"], "runs": [{"args": payload.get("args", []), "cwd": payload.get("cwd", ".")}],
          "cwd": payload.get("cwd", "."), "sexp": sexp.dump(["case", "replay"] + sx[2:]), "damage": "?", "tags": [], "pcmd": "?"}
+    if "history" in payload:
+        c["history"] = payload["history"]
     c["files"] = {k: v.replace("verifcases/c_%s/" % sx[1], "verifcases/c_replay/") for k, v in c["files"].items()}
     impl, model = run_cases(ctx, [c])
     print("impl :", impl.get("replay"))
